@@ -3,7 +3,6 @@ import Mathlib.Algebra.Order.Field.Basic
 import Mathlib.Tactic.Ring
 import Mathlib.Tactic.Linarith
 import Mathlib.Tactic.FieldSimp
-import Mathlib.Tactic.Positivity
 import Mathlib.Tactic.LinearCombination
 /-!
   C14 — helper lemmas about `Model/Scaling.lean` over an arbitrary linear ordered field (exact arithmetic).
@@ -204,6 +203,12 @@ theorem sum_map_sub_mul (l : List α) (c d : α) :
     simp only [List.map_cons, List.sum_cons, List.length_cons, ih]
     push_cast
     ring
+
+theorem sum_map_mul_right (l : List α) (f : α → α) (k : α) :
+    (l.map (fun v => f v * k)).sum = (l.map f).sum * k := by
+  induction l with
+  | nil => simp
+  | cons x xs ih => simp only [List.map_cons, List.sum_cons, ih]; ring
 
 /-! ### well-formed statistics: the `div`/`mul` pairs are exact inverses -/
 
